@@ -1,5 +1,6 @@
 import RbModel.Sexp
 import RbModel.ConstEval
+import RbModel.ConstProg
 import RbModel.Drv.Num
 import Gen.NumTables
 /-! Line-protocol handlers for `RbModel.ConstEval` (requests `const.*`).
@@ -65,6 +66,46 @@ def showOptTy : Option Ty → String
   | some t => showTy t
   | none => "none"
 
+/-! the expressions of a program (for the `inexact` diagnosis of `const.inlprog` only) -/
+
+def exprsOfItems : List Ast.PrintItem → List Ast.Expr
+  | [] => []
+  | .expr e :: r => e :: exprsOfItems r
+  | _ :: r => exprsOfItems r
+
+def exprsOfCase : Ast.CaseExpr → List Ast.Expr
+  | .simple e => [e]
+  | .is _ e => [e]
+  | .range a b => [a, b]
+
+mutual
+def exprsOfS : Ast.Stmt → List Ast.Expr
+  | .skip => []
+  | .seq a b => exprsOfS a ++ exprsOfS b
+  | .assign _ _ e _ => [e]
+  | .print items _ => exprsOfItems items
+  | .read _ _ _ => []
+  | .ifs c a b _ => c :: (exprsOfS a ++ exprsOfS b)
+  | .select e cs _ => e :: exprsOfC cs
+  | .forLoop _ _ lo hi st body _ => lo :: hi :: (st.toList ++ exprsOfS body)
+  | .while c body _ => c :: exprsOfS body
+  | .doLoop c _ _ body _ => c :: exprsOfS body
+  | .end_ _ => []
+def exprsOfC : Ast.Cases → List Ast.Expr
+  | .nil => []
+  | .else_ b => exprsOfS b
+  | .case conds b rest => (conds.map exprsOfCase).flatten ++ exprsOfS b ++ exprsOfC rest
+end
+
+/-- some parenthesised closed subexpression leaves the exact float domain -/
+partial def inexactParen : Ast.Expr → Bool
+  | .lit _ _ => false
+  | .var _ _ _ => false
+  | .un _ e _ => inexactParen e
+  | .bin _ l r _ _ => inexactParen l || inexactParen r
+  | .paren k _ =>
+    (ConstProg.closedE k && (match Ref.eval [] k with | .inexact => true | _ => false)) || inexactParen k
+
 def handle (cmd : String) (args : List Sexp) : Option String :=
   match cmd, args with
   -- the folder on one expression, in the scope chain (local, global)
@@ -96,6 +137,11 @@ def handle (cmd : String) (args : List Sexp) : Option String :=
         | some k => "(" ++ showOptTy (k.ty Gen.NumTables.binType fun _ => .int) ++ " " ++
             showRes showVal (k.eval Gen.NumTables.binType fun _ => .int 0) ++ ")"
         | none => "none")
+  -- the linted trees of the named and the inlined program: do they match (`ConstProg.matchP`)?
+  | "const.inlprog", [n, i] => do
+      let n ← Ast.program? n; let i ← Ast.program? i
+      pure (if ConstProg.matchP n i then "t"
+        else if (exprsOfS i.body).any inexactParen then "inexact" else "f")
   | "const.strlen", [m, n, s] => do
       let m ← consts? m; let n ← n.nat?; let s ← suffix? s
       pure (match stringLength (lookup m) n s with
